@@ -531,15 +531,111 @@ fn operator_grid_lists(rep: &Report) {
     }
 }
 
+/// The deformation operator has its own grid selection loop: the same grid lists through
+/// `deformation raw dt=1` on three-band grids, whole lattice as one set
+fn deformation_grid_lists(rep: &Report) {
+    let ga = GeoDeg { lat_s: 54., lat_n: 58., lon_w: 8., lon_e: 16., dlat: 1., dlon: 1. };
+    let gb = GeoDeg { lat_s: 55., lat_n: 57., lon_w: 10., lon_e: 13., dlat: 0.5, dlon: 0.5 };
+    let gc = GeoDeg { lat_s: 56., lat_n: 60., lon_w: 12., lon_e: 20., dlat: 2., dlon: 2. };
+    let grids: Vec<(Arc<dyn Grid>, RefGrid)> = vec![make_base(&ga, 3, 41), make_base(&gb, 3, 52), make_base(&gc, 3, 63)];
+    let names = ["a.deformation", "b.deformation", "c.deformation"];
+    let mut ctx = GridCtx::default();
+    for (n, g) in names.iter().zip(grids.iter()) {
+        ctx.add_grid(n, g.0.clone());
+    }
+    let ell = crate::geo::ref_ellipsoid("GRS80").unwrap();
+    let mut points: Vec<(f64, f64)> = Vec::new();
+    let mut la = 53.;
+    while la <= 61.5 {
+        let mut lo = 7.;
+        while lo <= 21.5 {
+            let (l, p) = (f64::to_radians(lo), f64::to_radians(la));
+            // keep clear of borders and margin limits by 1e-6 rad: the operator recovers (lon, lat) from cartesian coordinates
+            let near = grids.iter().any(|(_, g)| {
+                [g.lat_n, g.lat_s, g.lat_n + 0.5 * g.dlat, g.lat_s - 0.5 * g.dlat].iter().any(|b| (p - b).abs() < 1e-6) || [g.lon_w, g.lon_e, g.lon_w - 0.5 * g.dlon, g.lon_e + 0.5 * g.dlon].iter().any(|b| (l - b).abs() < 1e-6)
+            });
+            if !near {
+                points.push((l, p));
+            }
+            lo += 0.3;
+        }
+        la += 0.35;
+    }
+    let subsets: Vec<Vec<usize>> = (1..8usize).map(|m| (0..3).filter(|i| m & (1 << i) != 0).collect()).collect();
+    for subset in subsets {
+        let mut perms: Vec<Vec<usize>> = vec![vec![]];
+        for _ in 0..subset.len() {
+            perms = perms.into_iter().flat_map(|p| subset.iter().filter(|i| !p.contains(i)).map(|i| { let mut q = p.clone(); q.push(*i); q }).collect::<Vec<_>>()).collect();
+        }
+        for order in perms {
+            let list: Vec<&str> = order.iter().map(|&i| names[i]).collect();
+            let def = format!("deformation raw dt=1 grids={}", list.join(", "));
+            let Ok(op) = ctx.op(&def) else {
+                rep.violation("deformation with a list of generated grids cannot be instantiated", json!({"def": def}));
+                continue;
+            };
+            let mut data: Vec<Coor4D> = points.iter().map(|&(l, p)| { let c = ell.geo_to_cart(l, p, 0.); Coor4D([c[0], c[1], c[2], 2010.]) }).collect();
+            let n = match catch(|| ctx.apply(op, Fwd, &mut data)) {
+                Ok(Ok(n)) => n,
+                other => {
+                    rep.violation("deformation with a list of grids panics or errs", json!({"def": def, "result": format!("{other:?}")}));
+                    continue;
+                }
+            };
+            rep.eval(points.len() as u64);
+            let mut expected_count = 0;
+            for (k, &(l, p)) in points.iter().enumerate() {
+                let mut want: Option<Vec<f64>> = None;
+                for margin in [0.0, 0.5] {
+                    if want.is_some() {
+                        break;
+                    }
+                    for &i in &order {
+                        if grids[i].1.contains(l, p, margin) {
+                            want = Some(grids[i].1.at(l, p));
+                            break;
+                        }
+                    }
+                }
+                let got = data[k].0;
+                let ok = match &want {
+                    Some(v) => {
+                        expected_count += 1;
+                        let (sl, cl, sp, cp) = (l.sin(), l.cos(), p.sin(), p.cos());
+                        let w = [-sl * v[0] - sp * cl * v[1] + cp * cl * v[2], cl * v[0] - sp * sl * v[1] + cp * sl * v[2], cp * v[1] + sp * v[2]];
+                        let len = (w[0] * w[0] + w[1] * w[1] + w[2] * w[2]).sqrt().max(1e-9);
+                        (0..3).all(|j| (got[j].abs() - w[j].abs()).abs() <= 1e-6 * len)
+                    }
+                    None => got[0].is_nan() && got[1].is_nan() && got[2].is_nan(),
+                };
+                if !ok {
+                    rep.violation(
+                        &format!("deformation over a grid list: a tuple does not get the velocity of the first containing grid (then the first within the margin) / {} grids", order.len()),
+                        json!({"def": def, "index_in_set": k, "lon_deg": l.to_degrees(), "lat_deg": p.to_degrees(), "observed": got, "expected_enu_velocity": want}),
+                    );
+                    break;
+                }
+            }
+            if n != expected_count {
+                rep.violation(&format!("deformation over a grid list: count is not the number of tuples covered / {} grids", order.len()), json!({"def": def, "count": n, "expected": expected_count}));
+            }
+        }
+    }
+}
+
 pub fn run(tier: Tier) -> Report {
     let rep = Report::new("C08", tier, "exploration");
     rep.rule("30 grid geometries x 1..3 bands x 5 text layouts: every cell x 25 in-cell positions + 1e-9 deg either side of inner cell edges + margin (0.25, 0.49 cells) and outside \
-              (0.51, 2 cells) points; all orders of all non-empty subsets of 3 overlapping grids x null grid x a 0.3 deg point lattice (through grids_at point by point, and through the gridshift operator with the whole lattice as one set in two orders); 6 NTv2 tree shapes x all file orders x both byte \
+              (0.51, 2 cells) points; all orders of all non-empty subsets of 3 overlapping grids x null grid x a 0.3 deg point lattice (through grids_at point by point, and through the gridshift operator with the whole lattice as one set in two orders, and through deformation raw on three-band grids); 6 NTv2 tree shapes x all file orders x both byte \
               orders x a point lattice; operator conventions on generated grids. distinct_nontrivial = distinct interpolated value bit patterns");
     rep.assume("reference = harness bilinear interpolation on node values rounded exactly as the documented unit conversion prescribes (f32); tolerance 1e-12 relative to the largest node value");
     let outcomes = Mutex::new(HashSet::new());
     base_grid_checks(&rep, &outcomes);
     grid_lists(&rep);
+    match catch(|| deformation_grid_lists(&rep)) {
+        Ok(()) => {}
+        Err(p) => rep.violation(&format!("panic in a grid operator: {}", panic_class(&p)), json!({"panic": p})),
+    }
     match catch(|| operator_grid_lists(&rep)) {
         Ok(()) => {}
         Err(p) => rep.violation(&format!("panic in a grid operator: {}", panic_class(&p)), json!({"panic": p})),
